@@ -40,6 +40,7 @@ func main() {
 		tieM:  res.Tie("mask-shapes", "K2", "ALL combinations of writable fields x update mask x reset mask x stored message x written message over masks naming the nested message field, its sub-fields, both, and other fields (parents/children), one Update (create-if-absent) followed by Gets under nested read masks; compared per call as above; distinct = distinct combinations"),
 		tieR:  res.Tie("resource-options", "K2", "ALL ordered lists up to the stated length of resource options (WithWritableFields mask/nil, WithWritablePaths, WithIDInterceptor f/nil, WithInitialValue v/nil, WithInitialRecord incl. the same id twice and two spellings of one id, WithEquivalence, EmptyOption) given to NewCollection / NewValue, followed by a fixed probe sequence (List, Get by both spellings, masked Update, Add, Delete / Get, Set, Get): model (fold of the list as computeConfig does) vs code, per call as above, and whether construction panics; distinct = distinct (option list, call)"),
 		tieP:  res.Tie("mask-paths", "K2", "ALL lists of path strings up to the stated length over an alphabet of real paths of OpenClosePosition (incl. the siblings open_percent / open_percent_tween, whose names are related by textual prefix, and paths one and two levels inside the latter) and of TestAllTypes (three levels), handed to a Value as read mask, update mask, reset mask and writable fields: the leaf fields acted on, code vs the string-level model of withoutNestedPaths/nestedMask; and every path of the alphabet as update path against every writable list up to length 2 (Validate), code vs isWritablePath of the model; distinct = distinct (type, site, list)"),
+		tieN:  res.Tie("nested-calls", "K2", "ALL combinations of a Value never written / constructed with an initial value / written once x a write whose expected check, before or after interceptor (11 option lists: masks, expected value, failing and passing checks, the callback switched off again) calls the same Value again x every list of up to 2 nested calls over 6 (writes of a new / the stored / the zero message, a failing write, a masked write, a read), followed by a Get; compared per call as above plus what the nested calls returned; distinct = distinct scripts"),
 		mon:   res.Monitor("reference-map", "every call of every tie run is checked against a plain Go register/map oracle (fieldwise merge) and the property's clauses: failed call => contents and clock-free state unchanged and no bus event; List = sorted filtered contents; generated id non-empty, unused, reported once, usable"),
 	}
 	r := lib.NewRand(f.Seed)
@@ -48,6 +49,7 @@ func main() {
 	h.maskScope(f.Tier == "thorough")
 	h.pathScope(f.N(3, 4))
 	h.resScope(f.N(3, 4))
+	h.nestedScope()
 	// the defect witnesses first (small, fixed), then random
 	for _, s := range fixedScripts() {
 		h.runScript(s, h.tieFor(s))
@@ -66,6 +68,7 @@ func main() {
 	h.tieM.Exhaustive = true
 	h.tieP.Exhaustive = true
 	h.tieR.Exhaustive = true
+	h.tieN.Exhaustive = true
 	res.Extra["ops_total"] = h.ops
 	pw := h.cover.report([]string{"upd", "add", "del", "vset", "get", "list", "vget"}, []string{"rm", "inc"})
 	res.Extra["pairwise_option_coverage"] = pw
@@ -80,7 +83,7 @@ type harness struct {
 	drv              *lib.Driver
 	tieC, tieV, tieS *lib.Tie
 	tieO, tieM, tieP *lib.Tie
-	tieR             *lib.Tie
+	tieR, tieN       *lib.Tie
 	mon              *lib.Monitor
 	ops              int
 }
@@ -178,8 +181,10 @@ func evCount(cfg Cfg, ans string) string {
 func (h *harness) runModel(s Script) ([]string, error) {
 	lines := make([]string, 0, len(s.Ops)+1)
 	lines = append(lines, s.Cfg.line())
-	for _, op := range s.Ops {
-		lines = append(lines, op.line())
+	last := make([]int, len(s.Ops)) // the line whose answer is the call's answer (a write with nested calls takes several lines)
+	for i, op := range s.Ops {
+		lines = append(lines, modelLines(op)...)
+		last[i] = len(lines) - 1
 	}
 	ans, err := h.drv.Batch(lines)
 	if err != nil {
@@ -195,9 +200,9 @@ func (h *harness) runModel(s Script) ([]string, error) {
 	if ans[0] != "ok" {
 		return nil, fmt.Errorf("driver rejected config %q: %s", lines[0], ans[0])
 	}
-	out := ans[1:]
+	out := make([]string, len(s.Ops))
 	for i := range out {
-		out[i] = evCount(s.Cfg, out[i])
+		out[i] = evCount(s.Cfg, ans[last[i]])
 	}
 	return out, nil
 }
@@ -225,11 +230,11 @@ func (h *harness) runScript(s Script, tie *lib.Tie) {
 	}
 	for i, op := range s.Ops {
 		h.ops++
-		key := s.Cfg.line() + "#" + op.line() + "#" + pre
-		small := tie == h.tieS || tie == h.tieO || tie == h.tieM || tie == h.tieR
+		key := s.Cfg.line() + "#" + op.key() + "#" + pre
+		small := tie == h.tieS || tie == h.tieO || tie == h.tieM || tie == h.tieR || tie == h.tieN
 		if small {
 			key = scriptKey(s)
-			if tie == h.tieR {
+			if tie == h.tieR || tie == h.tieN {
 				key = s.Cfg.line() + "#" + key
 			}
 		}
@@ -260,7 +265,7 @@ func (h *harness) runScript(s Script, tie *lib.Tie) {
 func scriptKey(s Script) string {
 	var b strings.Builder
 	for _, op := range s.Ops {
-		b.WriteString(op.line() + ";")
+		b.WriteString(op.key() + ";")
 		if op.Off > 0 {
 			fmt.Fprintf(&b, "@%d;", op.Off)
 		}
@@ -320,7 +325,9 @@ func monitorOp(m *lib.Monitor, s Script, i int, want, got, pre, note string) {
 		return
 	}
 	failed := part(got, "err") != "-"
-	if failed {
+	if op.Site != "" {
+		monitorNested(m, s, i, want, got, pre)
+	} else if failed {
 		// the property's frame clause, stated directly on the code's own observations
 		if stOf(afterBar(got)) != stOf(pre) {
 			m.Violate("C01/failed-call/contents-changed", "a failing call changed the contents", in, stOf(pre), stOf(afterBar(got)))
@@ -343,6 +350,7 @@ func monitorOp(m *lib.Monitor, s Script, i int, want, got, pre, note string) {
 		{"err", "/wrong-code", "error code differs from the reference"},
 		{"val", "/wrong-result", "returned message differs from the reference"},
 		{"ev", "/wrong-events", "bus events differ from the reference"},
+		{"in", "/nested-results", "what the calls made from the write's own callback returned differs from the reference"},
 		{"ids", "/id-callback", "id callback invocations differ from the reference"},
 		{"created", "/created-callback", "created callback invocations differ from the reference"},
 		{"st", "/wrong-contents", "contents (ids, messages, stored times) after the call differ from the reference"},
